@@ -13,6 +13,7 @@ pub mod c10;
 pub mod c12;
 pub mod c13;
 pub mod c14;
+pub mod c15;
 pub mod c16;
 pub mod c17;
 pub mod c18;
@@ -32,6 +33,7 @@ pub fn run(ctx: &Ctx, st: &mut Stats) -> bool {
         "C12" => c12::run(ctx, st),
         "C13" => c13::run(ctx, st),
         "C14" => c14::run(ctx, st),
+        "C15" => c15::run(ctx, st),
         "C16" => c16::run(ctx, st),
         "C17" => c17::run(ctx, st),
         "C18" => c18::run(ctx, st),
@@ -55,6 +57,7 @@ pub fn replay(prop: &str, case: &Value, st: &mut Stats) -> bool {
         "C12" => c12::replay(case, st),
         "C13" => c13::replay(case, st),
         "C14" => c14::replay(case, st),
+        "C15" => c15::replay(case, st),
         "C16" => c16::replay(case, st),
         "C17" => c17::replay(case, st),
         "C18" => c18::replay(case, st),
